@@ -81,6 +81,23 @@ GridClause(e) ==
        THEN "a grid requested by name with N = 1 is not the z direction / identity rotation"
   ELSE "ok"
 
+(* C15: Get(obj, "volumes") on a rotation grid.  All quantities are integers logged by the driver:
+   share9  = volume / (pi^2 / N) * 1e9 per cell for N < 4 (4 pi / N for directions),
+   sumPm   = sum of the N volumes in per-mille of pi^2,
+   ratioPm = volume / Monte-Carlo measure of the nearest-rotation cell, per-mille, sigmaPm its standard error,
+   firstN  = the N volumes are bitwise the first N of the 2N double-cover volumes *)
+VolClause(e) ==
+  IF e.err # "" THEN "exception:" \o e.err
+  ELSE IF e.len # e.n THEN "number of volumes"
+  ELSE IF ~e.positive THEN "non-positive volume"
+  ELSE IF e.n < 4 THEN (IF \E i \in 1 .. Len(e.share9) : e.share9[i] < 999999990 \/ e.share9[i] > 1000000010
+                        THEN "tiny grid does not return the equal-share estimate" ELSE "ok")
+  ELSE IF ~e.firstN THEN "volumes are not the first N of the 2N double-cover volumes"
+  ELSE IF e.sumPm < 880 \/ e.sumPm > 1120 THEN "volumes do not sum to pi^2 within 12 %"
+  ELSE IF \E i \in 1 .. Len(e.ratioPm) : e.ratioPm[i] + 4 * e.sigmaPm[i] < 700 \/ e.ratioPm[i] - 4 * e.sigmaPm[i] > 1300
+       THEN "a cell volume is not within 30 % of the measure of its nearest-rotation region"
+  ELSE "ok"
+
 Init == l = 1 /\ fresh = <<>> /\ rows = <<>> /\ TLCSet(1, 0)
 Step == /\ l <= Len(Log)
         /\ \/ Ev.ev = "Fresh" /\ fresh' = (Key(Ev, Ev.what) :> Ev.digest) @@ fresh /\ UNCHANGED rows
@@ -92,6 +109,7 @@ Step == /\ l <= Len(Log)
                                         THEN (Ev.alg :> Longer(Ev.ids, IF Ev.alg \in DOMAIN rows THEN rows[Ev.alg] ELSE <<>>)) @@ rows
                                         ELSE rows
            \/ Ev.ev = "Grid" /\ Check(GridClause(Ev)) /\ UNCHANGED <<fresh, rows>>
+           \/ Ev.ev = "Volumes" /\ Check(VolClause(Ev)) /\ UNCHANGED <<fresh, rows>>
         /\ l' = l + 1
         /\ TLCSet(1, l)
 Spec == Init /\ [][Step]_vars
